@@ -577,8 +577,14 @@ def run(ctx):
         _t7 = _t.time()
         n7, f7 = c04_copy.run(ctx, core_configs() if quick else configs("quick"), 3 if quick else None)
         ctx.log(f"part copy canaries {_t.time() - _t7:.1f}s")
-    total = n1 + n2 + n3 + n4 + n5 + n6 + n7
-    found = f1 or f2 or f3 or f4 or f5 or f6 or f7
+    n8, f8 = 0, False
+    if not (f1 or f2 or f3 or f4 or f5 or f6 or f7):
+        from vlib import c04_frames
+        _t8 = _t.time()
+        n8, f8 = c04_frames.run(ctx, core_configs() if quick else configs("quick"), 3 if quick else 12)
+        ctx.log(f"part nested frames {_t.time() - _t8:.1f}s")
+    total = n1 + n2 + n3 + n4 + n5 + n6 + n7 + n8
+    found = f1 or f2 or f3 or f4 or f5 or f6 or f7 or f8
     if (gen_err is not None or not b["ok"]) and not found:
         if gen_err is not None:
             ctx.violation("translator-rejected", "cannot export the bounds-check templates: " + gen_err, {"error": gen_err})
